@@ -41,6 +41,8 @@
      ClampArrayOnly      negative loss clamped to 0 dB for arrays but returned as is for scalars
      HataRejectAssigns   Okumura-Hata setters store the value before validating it
      ShadowAfterPolicy   the shadowing draw is added AFTER the small-distance handling (a returned loss can be < 0)
+     ZeroInArrayAsUnit   a zero distance inside an ARRAY gets the loss of the unit distance instead of the policy
+     PlotRestoresPolicyFromShadow / PlotRaiseLeavesShadowOff   the plot helper does not leave the object as it was
 
    Shadowing (`use_shadow_bool`, `sigma_shadow`) is part of the state with its two setters.  While it is on with
    sigma > 0 the exact-value queries are not enabled (the value is det + sigma z for an unknown draw z); the range
@@ -60,6 +62,7 @@ CONSTANTS Model,     \* "general" | "3gpp1" | "freespace" | "metis" | "hata"
           ArrSets,   \* sequence of [ks |-> Seq(Int), ws |-> Seq(Nat)] : array queries
           KMin, KMax,\* decades of distance
           Enc,       \* [x1, x2, kf |-> <<lo, hi>>] rational enclosures of X1, X2, log10(c/(4000 pi))
+          PlotIdx,    \* indices into ArrSets: the distance arrays handed to the plot helper
           ShadowVals, \* subset of BOOLEAN : values of the use_shadow_bool setter
           SigmaVals,  \* sequence of Rat >= 0   : values of the sigma_shadow setter (0 = shadowing without effect)
           EmitSel,    \* 0: emit everything; 1 / 2: only from states with policy raise / clamp (parallel emission runs)
@@ -160,16 +163,24 @@ Slope(w) == CASE Model = "metis" -> IF w = 0 THEN D(187, 10) ELSE D(368, 10)
               [] OTHER           -> LMul(R(10), n)
 
 (* ------------------------------ queries (results, not actions) ---------------------------- *)
-Decided(k, w) == FSign(Det(k, w)) \in {-1, 1}
+\* The distance 0 (ZK stands for "k = -infinity": d = 10^k = 0) is the extreme of "too small for the model": every
+\* model's loss is -infinity dB there, so its sign is -1 and it falls under the small-distance policy like any other
+\* too small distance - as a scalar and as an element of an array (the diagonal of a distance matrix).
+ZK == -99
+SignDet(k, w) == IF k = ZK THEN -1 ELSE FSign(Det(k, w))
+Decided(k, w) == SignDet(k, w) \in {-1, 1}
 Outcome(k, w) ==
   LET d == Det(k, w) IN
-  IF FSign(d) = -1
+  IF SignDet(k, w) = -1
     THEN IF pol THEN IF Dev.ClampArrayOnly THEN [t |-> "val", f |-> d] ELSE [t |-> "zero", f |-> FZ]
                 ELSE [t |-> "raise", f |-> FZ]
     ELSE [t |-> "val", f |-> d]
-ArrElem(k, w) == IF FSign(Det(k, w)) = -1 THEN [t |-> "zero", f |-> FZ] ELSE [t |-> "val", f |-> Det(k, w)]
+\* Dev.ZeroInArrayAsUnit: inside an array the logarithm of a zero distance is taken as 0 (the loss of d = 1)
+ArrSign(k, w) == IF k = ZK /\ Dev.ZeroInArrayAsUnit THEN FSign(Det(0, w)) ELSE SignDet(k, w)
+ArrElem(k, w) == IF ArrSign(k, w) = -1 THEN [t |-> "zero", f |-> FZ]
+                 ELSE [t |-> "val", f |-> IF k = ZK THEN Det(0, w) ELSE Det(k, w)]
 ArrOutcome(a) ==
-  IF ~pol /\ \E i \in 1..Len(a.ks) : FSign(Det(a.ks[i], a.ws[i])) = -1
+  IF ~pol /\ \E i \in 1..Len(a.ks) : ArrSign(a.ks[i], a.ws[i]) = -1
     THEN [t |-> "raise", v |-> <<>>]
     ELSE [t |-> "arr", v |-> [i \in 1..Len(a.ks) |-> ArrElem(a.ks[i], a.ws[i])]]
 ArrDecided(a) == \A i \in 1..Len(a.ks) : Decided(a.ks[i], a.ws[i])
@@ -271,7 +282,7 @@ WallsOf == IF Model = "metis" THEN WallVals ELSE {0}
 
 QPLdB(k, w) ==
   /\ Live /\ Exact /\ ~Random /\ UNCHANGED vars
-  /\ IF w < 0 THEN E(QRec("PLdB", k, w, [t |-> "raisevalue", f |-> FZ]))
+  /\ IF w < 0 THEN k # ZK /\ E(QRec("PLdB", k, w, [t |-> "raisevalue", f |-> FZ]))   \* (zero distance AND negative walls: not fixed)
      ELSE Decided(k, w) /\ E(QRec("PLdB", k, w, Outcome(k, w)))
 
 QPL(k, w) ==
@@ -283,6 +294,24 @@ QPLdBArr(i) ==
   /\ E([kind |-> "q", op |-> "PLdBArr", ks |-> ArrSets[i].ks,
         ws |-> IF Model = "metis" THEN ArrSets[i].ws ELSE <<>>, exp |-> ArrOutcome(ArrSets[i]), pre |-> P, post |-> P,
         frame |-> FrameQ])
+
+\* plot_deterministic_path_loss_in_dB(d, ax): draws the DETERMINISTIC loss (shadowing is switched off inside the
+\* call) under the current small-distance policy on the axes it is given.  A query: whatever it does inside, the
+\* object is as before afterwards - also when the loss query inside raises (policy raise, a too small distance).
+\* `out` records the kind of step so that PlotPure can say so.  The expected curve is exact also while shadowing is on.
+\*   Dev.PlotRestoresPolicyFromShadow  the policy flag is "restored" from the shadowing flag (copy-paste slip)
+\*   Dev.PlotRaiseLeavesShadowOff      code as it was: no try/finally, a raising plot leaves use_shadow_bool False
+PlotOK(a) == ArrDecided(a) /\ (Model = "metis" => \A j \in 1..Len(a.ws) : a.ws[j] = 0)
+QPlot(i) ==
+  LET a == ArrSets[i]
+      o == ArrOutcome(a) IN
+  /\ Live /\ Exact /\ PlotOK(a)
+  /\ out' = IF o.t = "raise" THEN "plotraise" ELSE "plot"
+  /\ pol' = IF Dev.PlotRestoresPolicyFromShadow THEN shadow ELSE pol
+  /\ shadow' = IF Dev.PlotRaiseLeavesShadowOff /\ o.t = "raise" THEN FALSE ELSE shadow
+  /\ UNCHANGED <<ph, n, fc, C, hbs, hms, area, sigma>>
+  /\ E([kind |-> "set", op |-> "Plot", arg |-> [ks |-> a.ks], out |-> out', exp |-> o, pre |-> P, post |-> PN,
+        frame |-> FrameQ \cup {"RejectedChangesNothing"}])
 
 QWhichDistDB(k) ==
   /\ Live /\ Exact /\ ~Random /\ UNCHANGED vars
@@ -330,8 +359,9 @@ Next == \/ \E i \in 1..Len(InitArgs) : Construct(i)
         \/ \E i \in 1..Len(HbsVals) : SetHbs(i)
         \/ \E i \in 1..Len(HmsVals) : SetHms(i)
         \/ \E i \in 1..Len(AreaVals) : SetArea(i)
-        \/ \E k \in Ks, w \in WallsOf : QPLdB(k, w)
-        \/ \E k \in Ks, w \in WallsOf : QPL(k, w)
+        \/ \E k \in Ks \cup {ZK}, w \in WallsOf : QPLdB(k, w)
+        \/ \E k \in Ks \cup {ZK}, w \in WallsOf : QPL(k, w)
+        \/ \E i \in PlotIdx : QPlot(i)
         \/ \E i \in 1..Len(ArrSets) : QPLdBArr(i)
         \/ \E k \in Ks : QWhichDistDB(k)
         \/ \E k \in Ks : QWhichDist(k)
@@ -339,7 +369,7 @@ Next == \/ \E i \in 1..Len(InitArgs) : Construct(i)
         \/ QRel
 
 (* ---------------------------------------- the property ------------------------------------ *)
-TypeOK == /\ ph \in {"new", "live"} /\ pol \in BOOLEAN /\ shadow \in BOOLEAN /\ IsRat(sigma) /\ RSgn(sigma) >= 0 /\ out \in {"init", "ok", "raise"}
+TypeOK == /\ ph \in {"new", "live"} /\ pol \in BOOLEAN /\ shadow \in BOOLEAN /\ IsRat(sigma) /\ RSgn(sigma) >= 0 /\ out \in {"init", "ok", "raise", "plot", "plotraise"}
           /\ IsRat(n) /\ IsRat(hbs) /\ IsRat(hms) /\ \A i \in 1..3 : IsRat(C[i])
 
 \* parameters stay admissible whatever was attempted (rejected values leave no trace)
@@ -372,7 +402,8 @@ InUnit ==
 Policy ==
   (Live /\ Exact) =>
     /\ \A w \in WS : \A k \in Ks : Decided(k, w) =>
-          Outcome(k, w).t = (IF FSign(Det(k, w)) = 1 THEN "val" ELSE IF pol THEN "zero" ELSE "raise")
+          Outcome(k, w).t = (IF SignDet(k, w) = 1 THEN "val" ELSE IF pol THEN "zero" ELSE "raise")
+    /\ Outcome(ZK, 0).t = (IF pol THEN "zero" ELSE "raise")
     /\ \A i \in 1..Len(ArrSets) : LET a == ArrSets[i] IN ArrDecided(a) =>
           IF \E j \in 1..Len(a.ks) : Outcome(a.ks[j], a.ws[j]).t = "raise"
             THEN ArrOutcome(a).t = "raise"
@@ -407,6 +438,9 @@ ShadowRange ==
          /\ ShOutcome(k, w, z).t = "val" => FSign(ShOutcome(k, w, z).f) \in {0, 1}
          /\ pol => ShOutcome(k, w, z).t # "raise"
          /\ (sigma = RZero /\ Decided(k, w)) => ShOutcome(k, w, z) = Outcome(k, w)
+
+\* the plot helper is a query: it leaves the object as it was, whether it draws or raises
+PlotPure == [][out' \in {"plot", "plotraise"} => Params' = Params]_vars
 
 \* a call that raises leaves the object as it was
 RejectLaw == [][out' = "raise" => Params' = Params]_vars
